@@ -4,8 +4,14 @@ type EventFn[T any] func(data T)
 
 type Unsubscribe func()
 
+type subscriber[T any] struct {
+	id uint64
+	fn EventFn[T]
+}
+
 type Event[T any] struct {
-	subscribers []EventFn[T]
+	subscribers []subscriber[T]
+	nextID      uint64
 }
 
 func New[T any]() *Event[T] {
@@ -14,10 +20,18 @@ func New[T any]() *Event[T] {
 
 // Adds a subscriber to the event.
 func (e *Event[T]) Subscribe(fn EventFn[T]) Unsubscribe {
-	index := len(e.subscribers)
-	e.subscribers = append(e.subscribers, fn)
+	id := e.nextID
+	e.nextID++
+	e.subscribers = append(e.subscribers, subscriber[T]{id: id, fn: fn})
 	return func() {
-		e.subscribers = append(e.subscribers[:index], e.subscribers[index+1:]...)
+		// Find the subscriber by its id. Its position may have changed since it
+		// was added, because other subscribers may have been removed meanwhile.
+		for i, s := range e.subscribers {
+			if s.id == id {
+				e.subscribers = append(e.subscribers[:i], e.subscribers[i+1:]...)
+				return
+			}
+		}
 	}
 }
 
@@ -26,6 +40,6 @@ func (e *Event[T]) Subscribe(fn EventFn[T]) Unsubscribe {
 // so be aware of potential race conditions.
 func (e *Event[T]) Fire(data T) {
 	for _, subscriber := range e.subscribers {
-		go subscriber(data)
+		go subscriber.fn(data)
 	}
 }
